@@ -265,6 +265,24 @@ def attribute_grid() -> list[str]:
     return out
 
 
+def operand_index_grid() -> list[str]:
+    """Directed family: `%v#N` for N around the number of results bound to %v, in custom-syntax and generic operations."""
+    out = []
+    for n_res in (0, 1, 2, 3):
+        res = ", ".join(["i1"] * n_res)
+        bind = f"%v:{n_res}" if n_res != 1 else "%v"
+        define = f'{bind} = "test.op"() : () -> ({res})' if n_res else '"test.op"() : () -> ()\n%v:0 = "test.op"() : () -> ()'
+        for idx in ("", "#0", "#1", "#2", "#3", "#4", "#7", "#99999999999999999999"):
+            use = "%v" + idx
+            out += [f'{define}\nscf.if {use} {{\n}}',
+                    f'{define}\n"test.op"({use}) : (i1) -> ()',
+                    f'{define}\n%r = arith.select {use}, {use}, {use} : i1',
+                    f'{define}\ncf.cond_br {use}, ^a, ^a\n^a:\n  "test.termop"() : () -> ()',
+                    f'%i:{max(n_res, 1)} = "test.op"() : () -> ({", ".join(["index"] * max(n_res, 1))})\nscf.for %k = %i{idx} to %i{idx} step %i{idx} {{\n}}',
+                    f'%t = "test.op"() : () -> tensor<4xf32>\n%i:{max(n_res, 1)} = "test.op"() : () -> ({", ".join(["index"] * max(n_res, 1))})\n%e = tensor.extract %t[%i{idx}] : tensor<4xf32>']
+    return out
+
+
 def probes() -> list[tuple[str, str]]:
     """Long inputs whose parsing time must stay proportional to their length."""
     out = []
@@ -348,6 +366,8 @@ def run(ctx: Ctx):
         add("".join(rng.choice(TOKENS) + rng.choice(["", " ", " ", "\n"]) for _ in range(rng.randint(1, 14))), "token sequence")
     for t in attribute_grid():
         add(t, "attribute literal grid")
+    for t in operand_index_grid():
+        add(t, "operand index grid")
     n_small = len(texts)
     for label, t in probes():
         add(t, f"probe: {label} ({len(t)} characters)")
